@@ -54,6 +54,20 @@ def main(argv):
             with open(os.path.join(corpus, f'seed{n:03d}'), 'wb') as f:
                 f.write(blob)
             n_seeds += 1
+    if target['kind'] == 'hyp':
+        # Hypothesis reads its choices from the input: short inputs run out of bytes before the case
+        # is complete and execute nothing.  Start from full-length pseudo-random inputs (a pure
+        # function of seed and shard) and let libFuzzer mutate those.
+        import hashlib
+        want = target.get('max_len', 4096)
+        for n in range(8):
+            blob, k = b'', 0
+            while len(blob) < want:
+                blob += hashlib.sha256(f'{prop}/{check}/{seed}/{shard}/{n}/{k}'.encode()).digest()
+                k += 1
+            with open(os.path.join(corpus, f'hyp{n:03d}'), 'wb') as f:
+                f.write(blob[:want])
+            n_seeds += 1
     ctx = core.Ctx(prop, tier, seed, shard, nshards, scratch, budget_s=None)
     state = {'n': 0, 'start': time.time(), 'error': None, 'last': None}
 
@@ -113,7 +127,7 @@ def main(argv):
 
     args = [sys.argv[0], corpus, f'-seed={1 + (ctx.hseed(check) % 0x7fffffff)}',
             f'-max_len={target.get("max_len", 4096)}', '-runs=2000000000', '-rss_limit_mb=4096',
-            '-timeout=600', '-print_final_stats=0', '-verbosity=1', f'-artifact_prefix={scratch}/']
+            '-timeout=600', '-len_control=0', '-print_final_stats=0', '-verbosity=1', f'-artifact_prefix={scratch}/']
     atheris.Setup(args, TestOneInput)
     atheris.Fuzz()
     finish()
